@@ -168,7 +168,7 @@ void multi_thread() {
         subs[i] = std::make_unique<Sub>(*pub, mode[i]);
         Sub &s = *subs[i];
         dsim::event("subscribed", i, (long)s.position());
-        dsim::cell_set(RD_SUBPOS_HI + i, dsim::cell_get(PUB_STARTED) + 1);     // publishes STARTED when subscribe returned (+1: marks "set")
+        vs::cell_set_hb(RD_SUBPOS_HI + i, dsim::cell_get(PUB_STARTED) + 1);     // publishes STARTED when subscribe returned (+1: marks "set")
         switch (kind[i]) {
         case 0: coro_reader(s, i).join(); break;
         case 1: while (s.next()) reader_record(i, s.value(), s); break;
@@ -188,9 +188,9 @@ void multi_thread() {
     std::thread pt([&] {
         for (int k = 1; k <= npub; k++) {
             dsim::cell_set(PUB_STARTED, k); dsim::event("publish", k); pub->publish((long)k); dsim::cell_set(PUBLISHED, k); dsim::event("published", k);
-            if (k == (npub + 1) / 2) for (int i = 0; i < ns; i++) if (kick[i] && dsim::cell_get(RD_SUBPOS_HI + i)) { pub->kick(subs[i].get()); dsim::cell_set(RD_KICKED + i, 1); }
+            if (k == (npub + 1) / 2) for (int i = 0; i < ns; i++) if (kick[i] && vs::cell_get_hb(RD_SUBPOS_HI + i)) { pub->kick(subs[i].get()); dsim::cell_set(RD_KICKED + i, 1); }
         }
-        for (int i = 0; i < ns; i++) dsim::wait_cell(RD_SUBPOS_HI + i);    // nobody may still be inside subscribe() when the publisher goes away
+        for (int i = 0; i < ns; i++) vs::wait_cell_hb(RD_SUBPOS_HI + i);    // nobody may still be inside subscribe() when the publisher goes away
         dsim::cell_set(CLOSED, 1);
         if (destroy) pub.reset(); else pub->close();
         dsim::cell_set(CLOSED, 2);
